@@ -158,7 +158,7 @@ def random_plan(seed, idx):
             else:
                 b.offer(p, r.choice(KEYS), 1, ch)
         elif k < 0.67:
-            b.call("conn_lost")
+            b.call("conn_lost", r.choice([[], ["u"], ["m"], ["u"]]))
         elif k < 0.80:
             b.watch(r.randrange(len(FILTERS)))
         elif k < 0.88:
